@@ -17,7 +17,7 @@ import (
 
 func init() {
 	Register(&Scenario{Prop: "C18", Name: "close-drop", Run: scenC18, Weight: 1,
-		Rule: "instance P with 1-3 databases and a feeder peer Q; 2-8 writes and replications; then Close of one store, Close of the instance, or Drop of one store at a moment drawn per run: idle, while a writer is parked at one of the three write-path hooks, while block fetches of a replication are pending, while a fetched batch is parked before being joined (load-end hook), or while Load(-1) runs; Close is repeated 1-3 times; afterwards every public operation is invoked once on the closed object and must return within 30 virtual seconds without panic; 15 virtual seconds later the per-creator counts of goroutines created in go-orbit-db / go-ipfs-log packages must be back to the counts taken before the closed object was opened; after Close, reopen + Load(-1) must recover every acknowledged entry; after Drop the database reopens empty and the sibling databases' contents and cache keys are unchanged; non-trivial = the close happened at a non-idle moment or the object had replicated entries, and all post-close operations were exercised"})
+		Rule: "instance P with 1-3 databases and a feeder peer Q; 2-8 writes and replications; then Close of one store, Close of the instance, or Drop of one store at a moment drawn per run: idle, while a writer is parked at one of the three write-path hooks, while block fetches of a replication are pending, while a fetched batch is parked before being joined (load-end hook), or while Load(-1) runs (local block reads take kernel steps then; 0-6 of them are served before the action); Close is repeated 1-3 times; afterwards every public operation is invoked once on the closed object and must return within 30 virtual seconds without panic; 15 virtual seconds later the per-creator counts of goroutines created in go-orbit-db / go-ipfs-log packages must be back to the counts taken before the closed object was opened; after Close, reopen + Load(-1) must recover every acknowledged entry; after Drop the database reopens empty and the sibling databases' contents and cache keys are unchanged; non-trivial = the close happened at a non-idle moment or the object had replicated entries, and all post-close operations were exercised"})
 }
 
 var goroutineHdr = regexp.MustCompile(`(?m)^created by ((?:berty\.tech/go-orbit-db|berty\.tech/go-ipfs-log)[^\s]*) in goroutine`)
@@ -193,7 +193,9 @@ func scenC18(k *K) {
 		k.Wait()
 	case 2, 3:
 		if moment == 3 {
-			k.InstallHooks(func(pt string, owner interface{}) bool { return pt == "store.load-end" && OwnerStoreID(owner) == T.addr })
+			k.InstallHooks(func(pt string, owner interface{}) bool {
+				return pt == "store.load-end" && OwnerStoreID(owner) == T.addr
+			})
 		}
 		k.Cut(0, 1)
 		k.W.HoldOnCut = false
@@ -227,11 +229,27 @@ func scenC18(k *K) {
 		}
 	case 4:
 		st := T.p
+		// local block reads take kernel steps from here on, so that the load really is under
+		// way (0-6 of its reads served) when the action comes
+		P.Inc.SetSlowLocal(true)
 		inflight = append(inflight, k.Go(0, "load-during-close", func() (interface{}, error) {
 			ctx, cancel := OpCtx(time.Minute)
 			defer cancel()
 			return nil, st.Load(ctx, -1)
 		}))
+		k.Wait()
+		saved := k.F
+		k.F = FaultCfg{Serve: 3, ServeAny: 1}
+		for j, m := 0, k.C.Intn(7); j < m; j++ {
+			if en, _ := k.PendingCount(); en == 0 {
+				break
+			}
+			k.Step()
+		}
+		k.F = saved
+		if en, _ := k.PendingCount(); en > 0 {
+			momentName += "(reads pending)"
+		}
 	}
 	for a, v := range snapSiblings() {
 		siblingsBefore[a] = v
@@ -292,6 +310,7 @@ func scenC18(k *K) {
 			k.Failf("C18/inflight-hang", "operation %q in flight when %s was called never returned (65 virtual seconds later)", op.Name, actName)
 		}
 	}
+	P.Inc.SetSlowLocal(false)
 	// ---- every public operation once on the closed object ----
 	post := map[string]func(ctx context.Context) error{}
 	st := T.p
